@@ -111,6 +111,12 @@ LEAVES = {
     "dup_b": (_real(1), [0.7]),
     "dup_c": (_real(2), [-0.3, 0.2]),
     "dup_d": (_real(1), [0.5]),
+    # the SAME model class holding its parameter through different object types: the usual ratios + root_height JSON
+    # route builds a CatParameter (a new tensor object at every update); `shifts` and a constructor call with
+    # ratios_root_height hold ONE plain Parameter (in-place updates keep the tensor object)
+    "shifts_p": (_pos(3, 0.2, 1.0), [0.4, 0.6, 0.8]),
+    "rrh_p": (lambda rng: [round(rng.uniform(0.1, 0.9), 6), round(rng.uniform(0.1, 0.9), 6), round(rng.uniform(2.5, 5.0), 6)],
+              [0.5, 0.3, 3.5]),
     # further model classes
     "theta_e": (_pos(1, 1.0, 10.0), [5.0]),
     "growth": (_real(1, -0.5, 0.5), [0.1]),
@@ -249,6 +255,10 @@ def spec(values: dict, with_mg94_like: bool = True):
          "x": "theta", "parameters": {"loc": "theta_loc", "scale": "theta_scale"}},
         {"id": "prior_tail", "type": "Distribution", "distribution": "torch.distributions.Exponential",
          "x": "tail_rates", "parameters": {"rate": 1.0}},
+        {"id": "ttree_s", "type": "ReparameterizedTimeTreeModel", "newick": NEWICK, "taxa": "taxa", "shifts": "shifts_p"},
+        {"id": "ttree_p", "py": "reparam_plain", "parameter": "rrh_p"},
+        {"id": "coal_s", "type": "ConstantCoalescentModel", "theta": "theta_e", "tree_model": "ttree_s"},
+        {"id": "coal_p", "type": "ConstantCoalescentModel", "theta": "theta_e", "tree_model": "ttree_p"},
         # ---------------- further classes: JC69, exponential coalescent, torchtree's MultivariateNormal model,
         # BayesianBridge, CTMCScale; a joint INSIDE a joint (container of models holding a container of models)
         {"id": "jc", "type": "JC69"},
@@ -401,6 +411,13 @@ def build_py(d, dic):
         else:
             idx = torch.tensor(ix["bool"], dtype=torch.bool)
         return ViewParameter(d.get("obj_id", d["id"]), dic[d["parameter"]], idx)
+    if d["py"] == "reparam_plain":
+        # ReparameterizedTimeTreeModel(id, tree, taxa, ratios_root_height=<ONE plain Parameter>) through the constructor
+        from torchtree.evolution.tree_model import ReparameterizedTimeTreeModel, initialize_dates_from_taxa, parse_tree
+
+        tree = parse_tree(dic["taxa"], {"newick": NEWICK})
+        initialize_dates_from_taxa(tree, dic["taxa"])
+        return ReparameterizedTimeTreeModel(d["id"], tree, dic["taxa"], ratios_root_height=dic[d["parameter"]])
     raise ValueError(d["py"])
 
 
